@@ -305,10 +305,19 @@ static void q_once(const plan_t *p)
     nalloc = 0; reach = 0;
     memset(sp, (int)(unsigned char)p->cfg[CF_JUNK], sizeof sp); memset(wp, (int)(unsigned char)p->cfg[CF_JUNK], sizeof wp);
     memset(up, (int)(unsigned char)p->cfg[CF_JUNK], sizeof up); memset(gp, (int)(unsigned char)p->cfg[CF_JUNK], sizeof gp);
+    if (p->cfg[CF_DECL]) {
+        /* the documented other way to get empty pointer objects: the initializer macros (they name the object they initialise) */
+        for (i = 0; i <= NSP; i++) { sp[i] = (cstl_shared_ptr_t)CSTL_SHARED_PTR_INITIALIZER(sp[i]); if (i < NSP) tsp[i] = -1; }
+        for (i = 0; i <= NWP; i++) { wp[i] = (cstl_weak_ptr_t)CSTL_WEAK_PTR_INITIALIZER(wp[i]); if (i < NWP) twp[i] = -1; }
+        for (i = 0; i <= NUP; i++) { up[i] = (cstl_unique_ptr_t)CSTL_UNIQUE_PTR_INITIALIZER(up[i]); if (i < NUP) tup[i] = -1; }
+        for (i = 0; i <= NGP; i++) { gp[i] = (struct cstl_guarded_ptr)CSTL_GUARDED_PTR_INITIALIZER(gp[i]); if (i < NGP) tgp[i] = NULL; }
+        PROBE("from_initializer_macro");
+    } else {
     for (i = 0; i <= NSP; i++) { cstl_shared_ptr_init(&sp[i]); if (i < NSP) tsp[i] = -1; }
     for (i = 0; i <= NWP; i++) { cstl_weak_ptr_init(&wp[i]); if (i < NWP) twp[i] = -1; }
     for (i = 0; i <= NUP; i++) { cstl_unique_ptr_init(&up[i]); if (i < NUP) tup[i] = -1; }
     for (i = 0; i <= NGP; i++) { cstl_guarded_ptr_init(&gp[i]); if (i < NGP) tgp[i] = NULL; }
+    }
 
     for (k = 0; k < p->nops; k++) {
         const op_t *o = &p->ops[k];
@@ -797,6 +806,7 @@ static void q_exec(const plan_t *p)
 
 static void q_gen(prng_t *r, int mode, plan_t *p)
 {
+    p->cfg[CF_DECL] = DECL_OF_INDEX();    /* one run in five starts from the initializer macros */
     int small = prng_chance(r, 1, 5), longrun = mode == 5 && prng_chance(r, 1, 10);
     int nops = longrun ? 200 + (int)prng_below(r, 300) : small ? 2 + (int)prng_below(r, 8) : 10 + (int)prng_below(r, 50);
     int faults = mode == 5 && prng_chance(r, 1, 4);
